@@ -64,7 +64,7 @@ PROPS = {
             "not_covered": ["not covered: what remove_dir_all and the directory walk do with symbolic links (A-fs); clap argument parsing"]},
     "C13": {"units": ["CFG", "INC"], "level": "proof", "assume": CFGA + ["A-fs", "A-codec", "A-cmd"],
             "not_covered": ["not covered: project_dir.join(path) inside transform_input/_output (iterator closures; assumed by transform_target's contract)"]},
-    "C14": {"units": ["CFG"], "level": "proof", "assume": CFGA,
+    "C14": {"units": ["CFG", "CLN"], "level": "proof", "assume": CFGA,
             "not_covered": ["not applicable within C14: totality and strictness of parsing (serde_yaml, derive attributes, regexes) - third-party parser code with no contract within reach; only the uniqueness / import-name / injectivity half is proved"]},
     "C16": {"units": ["WCH"], "level": "proof", "assume": ["A-std", "A-chan", "A-notify", "A-str", "A-all"],
             "not_covered": ["not covered: notify itself, recursion into directories created later; the byte-level behaviour of the str predicates (bounded Kani harnesses in the KANI unit)"]},
